@@ -304,6 +304,30 @@ fn get_all_parent_fields<'a>(
     fields
 }
 
+/// All fields of the declaration and of its parents in the order they have on the wire:
+/// the fields of a child take the place of the payload or body of its parent.
+fn get_all_fields_in_wire_order<'a>(
+    scope: &analyzer::Scope<'a>,
+    decl: &'a ast::Decl,
+) -> Vec<&'a ast::Field> {
+    fn splice<'a>(chain: &[&'a ast::Decl], fields: &mut Vec<&'a ast::Field>) {
+        for field in chain[0].fields() {
+            match &field.desc {
+                ast::FieldDesc::Payload { .. } | ast::FieldDesc::Body if chain.len() > 1 => {
+                    splice(&chain[1..], fields)
+                }
+                _ => fields.push(field),
+            }
+        }
+    }
+
+    let mut chain: Vec<_> = scope.iter_parents_and_self(decl).collect();
+    chain.reverse();
+    let mut fields = Vec::new();
+    splice(&chain, &mut fields);
+    fields
+}
+
 struct FieldParser<'a> {
     scope: &'a analyzer::Scope<'a>,
     schema: &'a analyzer::Schema,
@@ -2123,7 +2147,7 @@ fn generate_packet_builder(
     }
 
     let mut serializer = FieldSerializer::new(scope, schema, endianness);
-    for f in &all_fields {
+    for f in get_all_fields_in_wire_order(scope, decl) {
         serializer.serialize(f, decl, None);
     }
     let field_serializers = serializer.code;
